@@ -123,7 +123,8 @@ def monitored(ctx, name, fn, inputs, outputs, watch_dirs, empty_dirs):
     empty_dirs: directories that must be empty afterwards.
     """
     before = fsmon.snapshot(watch_dirs)
-    in_dig = {str(p): fsmon.file_digest(p) for p in inputs}
+    in_dig = {str(p): fsmon.file_digest(p) for p in inputs
+              if os.path.exists(p)}
     cwd0 = os.getcwd()
     err = None
     try:
@@ -219,6 +220,47 @@ def run_chain(spec, work, ctx):
                   [stats, pmask], [refm2], watch, empties)
     if e:
         return f'markers from mask raised {e[-300:]}'
+    # the same stage with its inputs placed where path arithmetic can go
+    # wrong: inside the scratch directory, and in a sibling directory whose
+    # name merely starts with the scratch directory's name
+    for layout in ('inside-scratch', 'prefix-sibling'):
+        if layout == 'inside-scratch':
+            d = scratch / 'given_inputs'
+        else:
+            d = work / 'scratch_inputs'
+        d.mkdir()
+        mask2 = d / 'pmask_copy.h5'
+        stats2 = d / 'stats_copy.h5'
+        shutil.copy(pmask, mask2)
+        shutil.copy(stats, stats2)
+        out2 = outd / f'refm_{layout}.h5'
+        out3 = outd / f'refm_direct_{layout}.h5'
+        out4 = outd / f'pmask_{layout}.h5'
+        emp = [tmpd, cwd] if layout == 'inside-scratch' else empties
+        e = monitored(ctx, f'markers-from-mask[{layout}]',
+                      lambda: pw.run_markers_from_p_mask(
+                          stats2, mask2, out2, scratch, n_processors=2),
+                      [stats2, mask2], [out2], watch + [d], emp)
+        if e:
+            return f'markers from mask ({layout}) raised {e[-300:]}'
+        e = monitored(ctx, f'reference-markers[{layout}]',
+                      lambda: pw.run_ref_markers(stats2, out3, scratch,
+                                                 n_processors=2),
+                      [stats2, mask2], [out3], watch + [d], emp)
+        if e:
+            return f'reference markers ({layout}) raised {e[-300:]}'
+        e = monitored(ctx, f'p-value-mask[{layout}]',
+                      lambda: pw.run_p_mask(stats2, out4, scratch,
+                                            n_processors=2, n_per=8),
+                      [stats2, mask2], [out4], watch + [d], emp)
+        if e:
+            return f'p-value mask ({layout}) raised {e[-300:]}'
+        left = [x for x in listing(scratch)
+                if not x.startswith('given_inputs')]
+        if left:
+            ctx.V(f'C19:scratch-left-behind[{layout}]', f'{left[:6]}')
+        ctx.bump('input_layout_variants')
+        shutil.rmtree(d)
     e = monitored(ctx, 'query-markers',
                   lambda: pw.run_query_markers(refm, ref.genes, lookup,
                                                scratch, n_processors=3),
